@@ -67,6 +67,8 @@ impl FileStorage {
 
     fn read_impl(mut file: &File, pos: u64, buffer: &mut [u8]) -> Result<(), DbError> {
         file.seek(SeekFrom::Start(pos))?;
+        #[cfg(agdb_verif)]
+        crate::verif::fs_event("data", "read_seeked", pos, &[]);
         file.read_exact(buffer)?;
         Ok(())
     }
